@@ -443,6 +443,15 @@ def run_case(case: Dict[str, Any]) -> CaseInfo:
     for k, v in exp.items():
         if env.get(k) != v:
             raise Violation("environ_mismatch", f"{k}: {env.get(k)!r} != {v!r}", key=k)
+    # the wsgi.* variables PEP 3333 requires, with the values that are true of this server: the
+    # application object is called again and again in one process (run_once false), possibly
+    # by several threads at once (multithread true)
+    if env.get("wsgi.version") != (1, 0) or env.get("wsgi.run_once") is not False \
+            or env.get("wsgi.multithread") is not True \
+            or not hasattr(env.get("wsgi.errors"), "write"):
+        raise Violation("environ_mismatch", "wsgi.* variables: " + repr(
+            {k: env.get(k) for k in ("wsgi.version", "wsgi.run_once", "wsgi.multithread",
+                                     "wsgi.multiprocess", "wsgi.errors")}), key="wsgi.*")
     want_pi = rest.encode("utf-8").decode("latin-1")
     if env.get("PATH_INFO") != want_pi and not (want_pi == "" and env.get("PATH_INFO") == "/"):
         raise Violation("environ_mismatch", f"PATH_INFO: {env.get('PATH_INFO')!r} != {want_pi!r}",
